@@ -240,7 +240,7 @@ func (r *Run) BFS(factory func() System, o SeqOpts) (states int) {
 						}
 						np := append(append(make([]string, 0, len(p)+1), p...), op)
 						local = append(local, node{np})
-						if n%97 == 1 {
+						if n <= 4 || n%97 == 1 {
 							r.Sample(strings.Join(np, " ; "))
 						}
 					}
